@@ -12,6 +12,9 @@
 (*   sc      visible scalar bindings  name -> [v, tp]                         *)
 (*   calls   sequence of [p, srv, fn, args, tets] in sequential order         *)
 (*   st      "done" | "stopped" | "failed"                                    *)
+(*   tr      the skeleton of the trace the sequential reading records: one    *)
+(*           entry per call reached with resolved operands, one [par lsz rsz] *)
+(*           per par (pre-order, as in the data)                              *)
 (***************************************************************************)
 EXTENDS Naturals, Integers, Sequences, FiniteSets, TLC, AirValues
 
@@ -67,7 +70,8 @@ SS_Call(i, env) ==
         tets == [j \in 1..Len(a.vals) |-> <<a.vals[j].tp>>]
         pn == p.val.v.s  sn == s.val.v.s  fnn == f.val.v.s
         sv == Service(sn, fnn, args)
-        e1 == [env EXCEPT !.calls = Append(@, [p |-> pn, srv |-> sn, fn |-> fnn, args |-> args, tets |-> tets])]
+        e1 == [env EXCEPT !.calls = Append(@, [p |-> pn, srv |-> sn, fn |-> fnn, args |-> args, tets |-> tets]),
+                          !.tr = Append(@, [k |-> "call", p |-> pn, s |-> sn, f |-> fnn, lsz |-> 0, rsz |-> 0])]
     IN  IF sv.rc # 0 \/ sv.v.t = "raw" THEN SS_St(e1, "failed")
         ELSE IF i.out = "" THEN SS_St(e1, "done")
         ELSE SS_St([e1 EXCEPT !.sc = SS_With(@, i.out, [v |-> sv.v, tp |-> [p |-> pn, s |-> sn, f |-> fnn, lens |-> ""]])], "done")
@@ -76,8 +80,10 @@ SS_Seq(i, env) ==
     LET l == SS_Eval(i.l, env) IN IF l.st = "done" THEN SS_Eval(i.r, l) ELSE l
 
 SS_Par(i, env) ==
-    LET l == SS_Eval(i.l, env)
-        r == SS_Eval(i.r, SS_St(l, "done")) IN
+    LET at == Len(env.tr) + 1
+        l == SS_Eval(i.l, [env EXCEPT !.tr = Append(@, [k |-> "par", p |-> "", s |-> "", f |-> "", lsz |-> 0, rsz |-> 0])])
+        r0 == SS_Eval(i.r, SS_St(l, "done"))
+        r == [r0 EXCEPT !.tr[at].lsz = Len(l.tr) - at, !.tr[at].rsz = Len(r0.tr) - Len(l.tr)] IN
     IF l.st = "failed" /\ r.st = "failed" THEN r
     ELSE SS_St(r, IF l.st = "done" \/ r.st = "done" THEN "done" ELSE "stopped")
 
@@ -151,7 +157,7 @@ SS_Eval(i, env) ==
       [] OTHER             -> [SS_St(env, "stopped") EXCEPT !.stuck = TRUE]
 
 SeqRun(script, init) ==
-    SS_Eval(script, [init |-> init, sc |-> <<>>, folds |-> <<>>, calls |-> <<>>, catches |-> <<>>, st |-> "done", stuck |-> FALSE])
+    SS_Eval(script, [init |-> init, sc |-> <<>>, folds |-> <<>>, calls |-> <<>>, catches |-> <<>>, tr |-> <<>>, st |-> "done", stuck |-> FALSE])
 
 \* ---------------------------------------------------------------------------
 \* the fragment of C16: only these instructions / operands, and every instruction that can fail sits in
@@ -179,6 +185,31 @@ InFragment(i, guarded) ==
       [] i.op = "fold" -> SS_OpndOk(i.it) /\ i.it.o = "var" /\ (guarded \/ ~SS_HasLens(i.it)) /\ InFragment(i.i, guarded)
                           /\ (i.last.op = "none" \/ InFragment(i.last, guarded))
       [] OTHER -> FALSE
+
+\* ---------------------------------------------------------------------------
+\* A peer's trace T follows the sequential reading S when, block by block, it is a prefix of it: a par state sits where
+\* the sequential trace has a par and both its sides are prefixes of the sequential sides; a call state (request sent,
+\* executed, failed) sits where the sequential trace has a call, with the same peer / service / function when it
+\* carries them.  A peer that takes a branch or runs an iteration the sequential reading does not reach records a
+\* state where the sequential trace has none or one of another kind.
+RECURSIVE SS_BlockFollows(_, _, _, _, _, _)
+SS_BlockFollows(T, ti, tend, S, si, send) ==
+    IF ti >= tend THEN TRUE
+    ELSE IF si >= send THEN FALSE
+    ELSE LET t == T[ti]  s == S[si] IN
+         IF t.k = "par" THEN
+             /\ s.k = "par"
+             /\ ti + t.lsz + t.rsz < tend /\ t.lsz >= 0 /\ t.rsz >= 0
+             /\ SS_BlockFollows(T, ti + 1, ti + 1 + t.lsz, S, si + 1, si + 1 + s.lsz)
+             /\ SS_BlockFollows(T, ti + 1 + t.lsz, ti + 1 + t.lsz + t.rsz, S, si + 1 + s.lsz, si + 1 + s.lsz + s.rsz)
+             /\ SS_BlockFollows(T, ti + 1 + t.lsz + t.rsz, tend, S, si + 1 + s.lsz + s.rsz, send)
+         ELSE IF t.k = "sent" THEN s.k = "call" /\ SS_BlockFollows(T, ti + 1, tend, S, si + 1, send)
+         ELSE IF t.k \in {"exec", "failed"} THEN
+             /\ s.k = "call"
+             /\ ((t.k = "exec" /\ t.vt = "unused") \/ (t.p = s.p /\ t.s = s.s /\ t.f = s.f))
+             /\ SS_BlockFollows(T, ti + 1, tend, S, si + 1, send)
+         ELSE FALSE
+FollowsSequential(T, S) == SS_BlockFollows(T, 1, Len(T) + 1, S, 1, Len(S) + 1)
 
 SeqCallKey(c) == <<c.p, c.srv, c.fn, c.args>>
 SeqCallKeyT(c) == <<c.p, c.srv, c.fn, c.args, c.tets>>
